@@ -134,7 +134,7 @@ func TestC09(t *testing.T) {
 	rapid.Check(t, func(rt *rapid.T) {
 		kind := rapid.SampledFrom([]lib.StoreKind{lib.KInt, lib.KFloat, lib.KWord, lib.KWord}).Draw(rt, "kind")
 		pairs := genC09Store(rt, kind)
-		st := lib.GenSelect(rt, kind, pairs, lib.SelOpts{Aggregate: 2})
+		st := lib.GenSelect(rt, kind, pairs, lib.SelOpts{Aggregate: 2, MixedNumeric: true})
 		c := &c09Case{Stmt: st, Pairs: pairs, Batch: rapid.SampledFrom([]int{1, 3, 32}).Draw(rt, "batch")}
 		lib.Journal("C09", "c09", c)
 		msg, nt, labels := checkC09(c)
